@@ -107,6 +107,61 @@ pub fn check_forward(rec: &Rec, garbage: &[u8], ctx: &mut Ctx) -> Result<(), Fai
     ctx.eval(1);
     ctx.class(&format!("fwd:{}", k.name()));
 
+    // ---- the length constants the types announce (LEN / MIN_LEN / MAX_LEN) bound the encoding
+    {
+        use etherparse::*;
+        let lim: Option<(usize, usize)> = match &k {
+            Kind::Eth2 => Some((Ethernet2Header::LEN, Ethernet2Header::LEN)),
+            Kind::Sll => Some((LinuxSllHeader::LEN, LinuxSllHeader::LEN)),
+            Kind::Vlan => Some((SingleVlanHeader::LEN, SingleVlanHeader::LEN)),
+            Kind::Macsec => Some((MacsecHeader::MIN_LEN, MacsecHeader::MAX_LEN)),
+            Kind::Arp => Some((8, ArpPacket::MAX_LEN)),
+            Kind::ArpEthIpv4 => Some((ArpEthIpv4Packet::LEN, ArpEthIpv4Packet::LEN)),
+            Kind::Ipv4 => Some((Ipv4Header::MIN_LEN, Ipv4Header::MAX_LEN)),
+            Kind::Ipv6 => Some((Ipv6Header::LEN, Ipv6Header::LEN)),
+            Kind::Auth => Some((IpAuthHeader::MIN_LEN, IpAuthHeader::MAX_LEN)),
+            Kind::RawExt => Some((Ipv6RawExtHeader::MIN_LEN, Ipv6RawExtHeader::MAX_LEN)),
+            Kind::Frag => Some((Ipv6FragmentHeader::LEN, Ipv6FragmentHeader::LEN)),
+            Kind::Ipv4Exts(_) => Some((Ipv4Extensions::MIN_LEN, Ipv4Extensions::MAX_LEN)),
+            Kind::Ipv6Exts(_) => Some((Ipv6Extensions::MIN_LEN, Ipv6Extensions::MAX_LEN)),
+            Kind::IpHdrs => Some((Ipv4Header::MIN_LEN, IpHeaders::MAX_LEN)),
+            Kind::Udp => Some((UdpHeader::LEN, UdpHeader::LEN)),
+            Kind::Tcp => Some((TcpHeader::MIN_LEN, TcpHeader::MAX_LEN)),
+            Kind::Icmpv4 => Some((Icmpv4Header::MIN_LEN, Icmpv4Header::MAX_LEN)),
+            Kind::Icmpv6 => Some((Icmpv6Header::MIN_LEN, Icmpv6Header::MAX_LEN)),
+            Kind::Igmp => Some((IgmpHeader::MIN_LEN, IgmpHeader::MAX_LEN)),
+            _ => None,
+        };
+        if let Some((lo, hi)) = lim {
+            ctx.eval(1);
+            if e.len() < lo || e.len() > hi {
+                return cx.fail(ctx, "LEN/MIN_LEN/MAX_LEN", "announced-length-bounds", format!("the encoding has {} bytes, the type announces {}..={}", e.len(), lo, hi));
+            }
+            // ... and are attained: the longest encoding the format allows (from the field widths: 4 bit
+            // IHL / data offset, 8 bit AH and extension length fields, 8 bit ARP address lengths, SecTAG
+            // with SCI and ether type, the six extension slots) is exactly the announced maximum
+            let format_max: Option<usize> = match &k {
+                Kind::Ipv4 | Kind::Tcp => Some(60),
+                Kind::Auth | Kind::Ipv4Exts(_) => Some(4 * (255 + 2)),
+                Kind::RawExt => Some(8 * (255 + 1)),
+                Kind::Arp => Some(8 + 4 * 255),
+                Kind::Macsec => Some(16),
+                Kind::Ipv6Exts(_) => Some(4 * 2048 + 8 + 1028),
+                Kind::Icmpv4 => Some(20),
+                Kind::Igmp => Some(12),
+                _ => None,
+            };
+            if let Some(fm) = format_max {
+                if e.len() == fm {
+                    ctx.class("fwd:longest-encoding-of-its-type");
+                    if hi != fm {
+                        return cx.fail(ctx, "MAX_LEN", "announced-maximum-attained", format!("the longest value of the type encodes to {} bytes, the type announces a maximum of {}", fm, hi));
+                    }
+                }
+            }
+        }
+    }
+
     // ---- serialisers
     if let Some(tb) = val.to_bytes() {
         if tb != *e {
